@@ -130,7 +130,10 @@ TakesEllps(f) == f \in {"tmerc", "utm", "btmerc", "butm", "merc", "webmerc", "lc
                         "latitude", "permtide", "geodesic"}
 EllpsOf(f) == IF TakesEllps(f) THEN Ellps ELSE NoEllps
 \* omerc's documented example is on evrstSS: that ellipsoid is part of the quick tier too
-EllpsFor(f) == IF f = "omerc" /\ Q THEN Ellps \cup {"evrstSS"} ELSE EllpsOf(f)
+\* heights and distances of the lattices are metres: meaningless on the sphere of radius 1 m
+EllpsFor(f) == IF f = "omerc" /\ Q THEN Ellps \cup {"evrstSS"}
+               ELSE IF f \in {"cart", "cart_high", "geodesic"} THEN EllpsOf(f) \ {"unitsphere"}
+               ELSE EllpsOf(f)
 
 IntPts == IF Q THEN {<<3586526, 762340, 5201465, 2020>>, <<-2700000, -4300000, 3850000, 2000>>, <<12, 55, 100, 2020>>}
           ELSE {<<x, y, z, 2020>> : x \in {-6378137, -2700000, 0, 12, 3586526}, y \in {-4300000, 0, 55, 762340}, z \in {-6356752, 0, 100, 5201465}}
